@@ -210,9 +210,12 @@ func fnBound(name string, overload int, values []octosql.Value) {
 	}
 }
 
-// fnHeavy: functions whose library code forks per byte class (unicode tables, UTF-8 decoding);
-// with FN=-1 they are skipped unless HEAVY=1 and get their own instances with their own S.
-func fnHeavy(name string) bool { return name == "upper" || name == "lower" || name == "replace" }
+// fnHeavy: functions whose library code forks per byte class (unicode tables, UTF-8 decoding) and
+// time_from_unix(Float) (floating-point Modf / multiply / convert queries need a longer solver
+// timeout); with FN=-1 they are skipped unless HEAVY=1 and get their own instances.
+func fnHeavy(name string, overload int) bool {
+	return name == "upper" || name == "lower" || name == "replace" || (name == "time_from_unix" && overload == 1)
+}
 
 func fnPick() (string, int, physical.FunctionDescriptor) {
 	fi := zzverif.Param("FN")
@@ -237,7 +240,7 @@ func VerifC07Functions() {
 	if fnUnsupported(name, ov) {
 		return
 	}
-	if zzverif.Param("FN") < 0 && zzverif.Param("HEAVY") == 0 && fnHeavy(name) {
+	if zzverif.Param("FN") < 0 && zzverif.Param("HEAVY") == 0 && fnHeavy(name, ov) {
 		return
 	}
 	values := fnArgs(name, ov, d, zzverif.Param("E"), zzverif.Param("S"))
